@@ -111,9 +111,20 @@ def extend(g, api):
         if not (0 < i_ins < i_p):
             raise Exception('handle_first_packet: first packet number is not recorded in the duplicate filter before processing')
         pd = api.strip_comments(api.fn_body(api.read(conn), 'process_decrypted_packet'))
-        for n in [r'if self\.total_authed_packets > 0\s*\|\| packet\.payload\.len\(\) <= 16', r'\|\| !self\.crypto\.is_valid_retry\(',
+        for n in [r'Header::Retry \{[^}]*\} => \{\s*if self\.side\.is_server\(\) \{\s*trace!\([^)]*\);\s*return Ok\(\(\)\);', r'if self\.total_authed_packets > 0\s*\|\| packet\.payload\.len\(\) <= 16', r'\|\| !self\.crypto\.is_valid_retry\(',
                   r'Header::VersionNegotiate \{ \.\. \} => \{\s*if self\.total_authed_packets > 0 \{\s*return Ok\(\(\)\);']:
             if not re.search(n, pd, re.S):
                 raise Exception('process_decrypted_packet: Retry/VN acceptance test changed: ' + n[:50])
         return 1
     g.nat('receivePipelineShapeChecked', f'{conn}::handle_packet / handle_first_packet / process_decrypted_packet (order and tests of the receive pipeline as modelled in Conn/Receive.lean)', pipeline_shape)
+
+    pacing = 'quinn-proto/src/connection/pacing.rs'
+    def pacing_tail():
+        body = api.strip_comments(api.fn_body(api.read(pacing), 'delay'))
+        need = [r'let unscaled_delay = smoothed_rtt\s*\.checked_mul\(\(bytes_to_send\.max\(self\.capacity\) - self\.tokens\) as _\)\s*\.unwrap_or\(Duration::MAX\)\s*/ window;',
+                r'let delay = \(unscaled_delay / 5\) \* 4;\s*if delay\.is_zero\(\) \{\s*return None;\s*\}\s*Some\(now \+ delay\)\s*\}?\s*$']
+        for n in need:
+            if not re.search(n, body.strip(), re.S):
+                raise Exception('Pacer::delay: tail shape changed: ' + n[:50])
+        return 1
+    g.nat('pacingTailShapeChecked', f'{pacing}::Pacer::delay tail (a wake-up instant is returned only when the delay is non-zero, as modelled in Recovery/Pacing.lean)', pacing_tail)
